@@ -1034,9 +1034,10 @@ class Grid:
         if failed:
             ctx.broken.append({'kind': 'correspondence', 'name': name, 'detail': 'coqc failed on case file: ' + failed[0], 'candidates': []})
         for i in bad_all[:20]:
-            says = ctx.model_output(header_for([i]), 'model_says %s' % self.cases[i]) if bad_all.index(i) < 6 else None
+            says = ctx.model_output(header_for([i]), 'model_says %s' % self.cases[i]) if bad_all.index(i) < 30 else None
             ctx.disagreement(name, {'input': self.meta[i], 'coq_case': self.cases[i][:1500]}, model_says=says,
                              impl_says=self.meta[i]['observed'])
+            self.meta[i]['model_says'] = says
         self.bad = bad_all
         return bad_all
 
@@ -1245,7 +1246,8 @@ def run(ctx):
         for i in bad[:40]:
             m = grid.meta[i]
             ctx.log('DISAGREE', m['version'], json.dumps(m['request'])[:300], '| impl:', m['observed']['reason'],
-                    site_string(m['observed']['crash']), m['observed']['crypto'])
+                    site_string(m['observed']['crash']), m['observed']['crypto'], '| model:', m.get('model_says'), '| target:',
+                    [o for o in m['store'] if str(o['uid']) == str(m['request'].get('uid'))][:1])
     for i in (0, len(grid.cases) // 3, 2 * len(grid.cases) // 3):
         if i < len(grid.cases):
             ctx.sample({'request': grid.meta[i]['request'], 'version': grid.meta[i]['version'], 'observed': grid.meta[i]['observed'],
